@@ -77,6 +77,9 @@ def hook(cfg, tshim, mode):
 STUB_BATCHES = [["h2o"], ["h2o", "h2"], ["ch4", "hf"], ["nh3"], ["h2co", "h2o"], ["c2h4"]]
 
 
+PINNED_SWITCH_CROSSING = {"engine": "exc_basic", "kind": "family", "driver": "real", "batch": ["h2co"], "rotate": 275791356, "dt": 0.5, "steps": 30, "scf_eps": 1e-10, "temp": 300.0, "n_states": 3, "seed": 836656, "variants": ["reuse_off", "cadence_mix"], "com_stride": 1}
+
+
 def gen(rng, tier, i):
     real_frac = 0.03 if tier == "quick" else 0.06
     u = rng.random()
@@ -123,7 +126,9 @@ def gen(rng, tier, i):
         variants.append("crash_resume")
     if rng.random() < 0.5:
         variants.append("reused_driver")
-    cfg["variants"] = variants if cfg["driver"] == "stub" else variants[:1]
+    cfg["variants"] = (variants if cfg["driver"] == "stub" else variants[:1]) + ["cadence_mix"]
+    # output cadences of the cadence_mix member: scalar consumers (data, xyz, screen) that are not multiples of one another
+    cfg["cad"] = {"data": rng.choice([2, 3, 5]), "xyz": rng.choice([2, 3, 4, 7]), "print": rng.choice([0, 0, 4, 7]), "forces": rng.choice([0, 1, 3])}
     cfg["com_stride"] = rng.randint(1, 5)
     return cfg
 
@@ -131,7 +136,7 @@ def gen(rng, tier, i):
 def member(cfg, factor=1, **over):
     """Configuration of one family member: dt/factor, steps*factor, rows at the common times."""
     nm = len(cfg["batch"])
-    c = {k: v for k, v in cfg.items() if k not in ("variants", "kind", "com_stride")}
+    c = {k: v for k, v in cfg.items() if k not in ("variants", "kind", "com_stride", "cad")}
     c["dt"] = cfg["dt"] / factor
     c["steps"] = cfg["steps"] * factor
     c["out"] = {"molid": list(range(nm)), "print": 0, "ckpt": 0, "xyz": 0, "h5": {"data": factor, "coordinates": factor, "velocities": factor, "forces": factor}}
@@ -338,6 +343,68 @@ def _execute(record, root):
             pre = mdsim.same_shape_batch(cfg["batch"], core.rng_for("c08reuse", cfg["seed"]))
             c = member(cfg, 1, pre_run={"batch": pre, "steps": 3})
             crashes = ()
+        elif var == "cadence_mix":
+            # the same run with thermodynamic data, XYZ frames and screen lines at cadences that are not multiples
+            # of one another (positions and velocities still every step): every row and frame written must carry
+            # the energies of the positions and velocities written for ITS step
+            cad = cfg.get("cad") or {"data": 3, "xyz": 2, "print": 0, "forces": 1}
+            c = member(cfg, 1)
+            c["out"].update(print=cad["print"], xyz=cad["xyz"])
+            c["out"]["h5"].update(data=cad["data"], forces=cad["forces"])
+            d, data, reps = _run(c, root, var)
+            stats["members"] += 1
+            stats["probes"][f"variant_{var}"] = 1
+            if data is None:
+                failures.append(core.fail("run-failed", f"variant {var} raised {reps[-1].get('exc')}", classify=cls))
+                continue
+            for m in range(nm):
+                nat = int((sp[m] > 0).sum())
+                ms = mass_all[m][:nat]
+                st0, x0, v0, _, Ek0, Ep0, T0 = _series(base, m)
+                g = lambda k: data[f"{m}:h5:{k}"]
+                st, Ek, Ep, T = g("data/steps"), g("data/thermo/Ek"), g("data/thermo/Ep"), g("data/thermo/T")
+                vs, vv, xs, xx = g("velocities/steps"), g("velocities/values"), g("coordinates/steps"), g("coordinates/values")
+                if st.tolist() != [s_ for s_ in range(0, S + 1) if s_ % cad["data"] == 0] or vs.tolist() != list(range(S + 1)):
+                    failures.append(core.fail("cadence-mix-labels", f"mol {m}: data rows at {st.tolist()[:10]}, velocity rows at {vs.tolist()[:6]} (data every {cad['data']})", classify=cls))
+                    continue
+                if np.abs(xx - x0).max() > 0 or np.abs(vv - v0).max() > 0:
+                    failures.append(core.fail("trajectory-changed-by/cadence_mix", f"mol {m}: changing output cadences changed the trajectory by {np.abs(xx - x0).max():.2e}", classify=cls))
+                    continue
+                idx = st.astype(int)
+                ek_ind = 0.5 * (ms[None, :, None] * vv[idx] ** 2).sum((1, 2)) * KE_SCALE
+                dev = np.abs(ek_ind - Ek).max() / max(np.abs(Ek0).max(), 1e-300)
+                devT = np.abs(T - T0[idx]).max() / max(np.abs(T0).max(), 1e-300)
+                devp = np.abs(Ep - Ep0[idx]).max() / max(np.abs(Ep0).max(), 1e-12)
+                worst("cadence_mix_Ek_vs_written_velocities", dev)
+                worst("cadence_mix_Ep_vs_step", devp)
+                stats["rows_checked"] += len(st)
+                if dev > tol["const_rel"] or devT > tol["const_rel"]:
+                    bad = int(np.argmax(np.abs(ek_ind - Ek)))
+                    failures.append(core.fail("kinetic-energy-of-other-step", f"mol {m}: with data every {cad['data']}, xyz every {cad['xyz']}, screen every {cad['print']}: written Ek/T differ from those of the velocities written for the same step by {dev:.2e}/{devT:.2e} (first at step {st[bad]})", classify=cls))
+                if devp > tol["const_rel"]:
+                    bad = int(np.argmax(np.abs(Ep - Ep0[idx])))
+                    failures.append(core.fail("potential-energy-of-other-step", f"mol {m}: with data every {cad['data']}, xyz every {cad['xyz']}, screen every {cad['print']}: written Ep is not the potential of the positions written for the same step (dev {devp:.2e}, first at step {st[bad]})", classify=cls))
+                # XYZ comment lines: E_total of the frame's own step (9 printed decimals)
+                raw = data.get(f"{m}:xyz:raw")
+                if raw is None:
+                    failures.append(core.fail("cadence-mix-labels", f"mol {m}: no XYZ file although xyz every {cad['xyz']}", classify=cls))
+                    continue
+                et = {}
+                for ln in raw.decode(errors="replace").split("\n"):
+                    if ln.startswith("step:"):
+                        t = ln.split()
+                        et.setdefault(int(t[1]), float(t[4]))
+                due = [s_ for s_ in range(0, S + 1) if s_ % cad["xyz"] == 0]
+                if sorted(et) != due:
+                    failures.append(core.fail("cadence-mix-labels", f"mol {m}: XYZ frames at {sorted(et)[:10]} but due {due[:10]}", classify=cls))
+                    continue
+                devx = max(abs(et[s_] - (Ek0[s_] + Ep0[s_])) for s_ in due)
+                worst("cadence_mix_xyz_Etotal_abs", devx)
+                stats["rows_checked"] += len(due)
+                if devx > 2.0e-9 + 1e-12 * abs(Ep0).max():
+                    bad = [s_ for s_ in due if abs(et[s_] - (Ek0[s_] + Ep0[s_])) > 2.0e-9 + 1e-12 * abs(Ep0).max()]
+                    failures.append(core.fail("xyz-energy-of-other-step", f"mol {m}: with data every {cad['data']}, xyz every {cad['xyz']}, screen every {cad['print']}: E_total on the XYZ frames of steps {bad[:6]} is not Ek+Ep of those steps (max dev {devx:.2e} eV)", classify=cls))
+            continue
         elif var in ("com_linear", "com_angular"):
             # start from the base run's step-0 phase-space point (P = L = 0 there): periodic removal is then
             # mathematically a no-op.  (A fresh draw would legitimately differ: the degrees of freedom count
@@ -424,7 +491,11 @@ class C08(core.Check):
     ]
 
     def plan(self, tier, seed):
-        return [{"i": i, "cfg": gen(core.rng_for(seed, PROP, i), tier, i)} for i in range(self.runs[tier])]
+        recs = [{"i": i, "cfg": gen(core.rng_for(seed, PROP, i), tier, i)} for i in range(self.runs[tier])]
+        # pinned history (found by the seed-777 soak, fixed by d7687a5 in /repo): excited-state BOMD whose C-H distance
+        # passes through the |x| = 0.5 switch of the overlap's B functions exactly at a step of the dt/4 member
+        recs[1] = {"i": 1, "cfg": dict(PINNED_SWITCH_CROSSING, cad=recs[1]["cfg"]["cad"])}
+        return recs
 
     def shrink_candidates(self, rec):
         cfg = rec["cfg"]
